@@ -332,7 +332,11 @@ static ProjCase genProj()
   if (c.mesh.kind == 2 && c.mesh.nnodes() > 600) c.mesh.kind = 0, c.mesh.jit.clear();
   int np = G::sz(1, 25);
   int pout = G::pick<int>({0, 15, 40});
-  for (int i = 0; i < np; i++) c.pts.push_back(genPt(c.mesh, pout, true));
+  for (int i = 0; i < np; i++)
+  {
+    c.pts.push_back(genPt(c.mesh, pout, true));
+    if (c.mesh.kind != 3 && G::pct(12)) c.pts.back().type = 3; // an apex of the mesh (hull apices included); not on masked meshes, where an apex between active and masked cells is a boundary case the property does not decide
+  }
   c.useSel = G::pct(30);
   c.rankZ = G::pct(40) ? 0 : -1;
   for (int i = 0; i < np; i++) c.sel.push_back(c.useSel ? (G::pct(25) ? 0 : 1) : 1);
